@@ -42,7 +42,7 @@ Num(c) == [k |-> "num", v |-> 4 * c]
 Lit(s) == [k |-> "lit", v |-> s]
 \* "s<c>"; with IOEnv.LONGSTR = "1" followed by 300 x "L": longer than any pool size class, so the
 \* string lives in arena-fallback storage instead of a recyclable slot
-LongTail == IF IOEnv.LONGSTR = "1" THEN [j \in 1..300 |-> 76] ELSE <<>>
+LongTail == IF IOEnv.LONGSTR = "1" THEN [j \in 1..300 |-> 76] ELSE [j \in 1..atoi(IOEnv.LONGSTR) |-> 76]    \* "1" = 300 (legacy), else that many
 StrC(c) == [k |-> "str", segs |-> <<Lit(<<115>> \o NatCps(c) \o LongTail)>>]
 Var(x) == [k |-> "var", n |-> x, site |-> 0]
 Bin(op, l, r) == [k |-> "bin", op |-> op, l |-> l, r |-> r]
